@@ -104,7 +104,7 @@ def malformed_case(draw, tier):
     n, m = draw(st.integers(1, 4)), draw(st.integers(1, 4))
     defect = draw(st.sampled_from(
         ["dup_obs", "dup_samp", "few_obs", "many_obs", "few_samp",
-         "many_samp", "md_short_obs", "md_long_obs", "md_short_samp",
+         "many_samp", "swapped_counts", "md_short_obs", "md_long_obs", "md_short_samp",
          "md_long_samp", "md_nonmapping_obs", "md_nonmapping_samp"]))
     return {"part": "malformed", "n": n, "m": m, "defect": defect,
             "pos": draw(st.integers(0, 7)), "pos2": draw(st.integers(0, 7)),
@@ -439,6 +439,13 @@ def check_malformed(case, rec):
             rec.skip("cannot drop an ID and stay non-empty")
             return
         ids.pop(case["pos"] % len(ids))
+    elif defect == "swapped_counts":
+        # as many IDs as cells, but the two counts the wrong way round
+        if n == m:
+            rec.skip("square matrix: counts cannot be swapped")
+            return
+        obs, samp = (["o%d" % i for i in range(m)],
+                     ["s%d" % j for j in range(n)])
     elif defect in ("many_obs", "many_samp"):
         ids = obs if defect == "many_obs" else samp
         ids.insert(case["pos"] % (len(ids) + 1), "extra")
@@ -470,7 +477,8 @@ def check_malformed(case, rec):
         else:
             smd = md
     form = case["form"]
-    if defect.startswith(("few", "many")) and form in ("lists", "dict"):
+    if defect.startswith(("few", "many", "swapped")) and \
+            form in ("lists", "dict"):
         # nested lists / coordinate dicts take their shape from the ID
         # counts, so "ID counts disagree with the matrix shape" is only
         # expressible with inputs that carry a shape of their own
@@ -481,7 +489,7 @@ def check_malformed(case, rec):
         t = Table(data, obs, samp, omd, smd, **kw)
     except TableException:
         rec.nt(late or defect.startswith(("few", "many", "md_short",
-                                          "md_long")))
+                                          "md_long", "swapped")))
         return
     except Exception as e:
         raise Violation("malformed-wrong-exception", "%s raised %s (%s), "
